@@ -1,0 +1,92 @@
+//go:build verif
+
+package bigbuff
+
+import (
+	"context"
+	"sync/atomic"
+	"time"
+)
+
+// This file is only compiled with the `verif` build tag. It exposes a hook
+// that external verification machinery may use to observe (and delay at)
+// points between the library's critical sections, and a few read-only
+// accessors which take each type's own lock. Nothing here changes behavior
+// unless a hook is installed.
+
+var verifHookFn atomic.Pointer[func(site string)]
+
+// VerifSetHook installs (or clears, with nil) the hook function.
+func VerifSetHook(fn func(site string)) {
+	if fn == nil {
+		verifHookFn.Store(nil)
+		return
+	}
+	verifHookFn.Store(&fn)
+}
+
+func verifHook(site string) {
+	if fn := verifHookFn.Load(); fn != nil {
+		(*fn)(site)
+	}
+}
+
+// VerifSnapshot returns the buffer's offset (values evicted so far), size
+// (values retained), and the committed offsets of all open consumers, read
+// atomically under the buffer's read lock.
+func (b *Buffer) VerifSnapshot() (offset, size int, committed []int) {
+	b.ensure()
+	b.mutex.RLock()
+	defer b.mutex.RUnlock()
+	offset, size = b.offset, len(b.buffer)
+	committed = make([]int, 0, len(b.consumers))
+	for _, v := range b.consumers {
+		committed = append(committed, v)
+	}
+	return
+}
+
+// VerifWorkLen returns the number of keys with state.
+func (e *Exclusive) VerifWorkLen() int {
+	e.mutex.Lock()
+	defer e.mutex.Unlock()
+	return len(e.work)
+}
+
+// VerifState returns the worker count, target, and queue length.
+func (w *Workers) VerifState() (count, target, queued int) {
+	w.mutex.Lock()
+	defer w.mutex.Unlock()
+	return w.count, w.target, len(w.queue)
+}
+
+// VerifState returns the length of the pending buffer and the rollback count.
+func (c *Channel) VerifState() (buffered, rollback int) {
+	c.mutex.Lock()
+	defer c.mutex.Unlock()
+	return len(c.buffer), c.rollback
+}
+
+// VerifRetryObserve wraps the retry internals with observers, that call
+// through to the originals, unless wait returns true, in which case the
+// actual wait is skipped. Not safe for concurrent use with ExponentialRetry.
+func VerifRetryObserve(calc func(rate time.Duration, c uint32, d time.Duration), wait func(ctx context.Context, d time.Duration) (skip bool)) (restore func()) {
+	oldCalc, oldWait := calcExponentialRetry, waitDuration
+	calcExponentialRetry = func(d time.Duration, c uint32) time.Duration {
+		r := oldCalc(d, c)
+		if calc != nil {
+			calc(d, c, r)
+		}
+		return r
+	}
+	waitDuration = func(ctx context.Context, d time.Duration) {
+		if wait != nil && wait(ctx, d) {
+			return
+		}
+		oldWait(ctx, d)
+	}
+	return func() { calcExponentialRetry, waitDuration = oldCalc, oldWait }
+}
+
+// VerifIsFatal reports whether err is (outermost) a FatalError wrapper.
+func VerifIsFatal(err error) bool { return isFatalError(err) }
